@@ -325,6 +325,7 @@ func main() {
 	genSites()
 	genGuards()
 	genSurface()
+	genProbes()
 	genComparator()
 	if len(failed) > 0 {
 		for _, f := range failed {
